@@ -69,7 +69,7 @@ Answer == /\ n >= 1
           /\ Gen(name, n, R)            \* the action of the design module
           /\ UNCHANGED <<seq, acc>>
 
-SNext == Extend \/ (\E s \in Shapes(Len(seq)) : Post(s)) \/ Answer
+SNext == IF n = 0 THEN Extend \/ (\E s \in Shapes(Len(seq)) : Post(s)) ELSE Answer
 SweepSpec == SInit /\ [][SNext]_svars
 
 ---------------------------------------------------------------------------
